@@ -384,6 +384,24 @@ def visibility_histories():
     return cases
 
 
+NAMING = ["serde_rename_all", "serde_rename_all_snake", "field_case", "rename_own_field", "serde_rename", "enum_rename_all",
+          "rename_own_variant", "variant_rename", "param_case", "cmd_rename_all_camel", "cmd_rename_all", "param_rename"]
+
+
+def naming_histories():
+    """the three-level naming priority rename > container rename_all > configured default case: every pair of naming edits,
+    including renames to the member's own name and rename_all values that spell out the default"""
+    cases = []
+    for entry in ("cli", "build"):
+        for mode in ("none", "zod"):
+            for n in (1, 2):
+                for seq in itertools.product(NAMING, repeat=n):
+                    if mode == "zod" and n == 2 and entry == "build":
+                        continue
+                    cases.append({"entry": entry, "base": mode, "ops": list(seq)})
+    return cases
+
+
 def order_histories():
     """order-only edits of every ordered collection that reaches the output, each on its own and after one another"""
     order = ["param_swap", "field_swap", "variant_swap", "channel_swap", "event_swap", "struct_swap", "cmd_swap"]
@@ -451,7 +469,7 @@ def run(rep):
     outs, oo = eval_histories(witnesses() + regressions("C08"))
     rep.add("corpus", outs)
     rep.add("partition", eval_partition(partition_cases()))
-    cases = config_histories() + route_histories(rep.tier, rng) + loss_histories() + force_histories(rep.tier, rng) + order_histories() + visibility_histories() + event_histories(rep.tier, rng) + history_cases(rep.tier, rng)
+    cases = config_histories() + route_histories(rep.tier, rng) + loss_histories() + force_histories(rep.tier, rng) + order_histories() + visibility_histories() + naming_histories() + event_histories(rep.tier, rng) + history_cases(rep.tier, rng)
     rep.extra["history_distribution"] = distribution(cases)
     total_oo = oo
     for i in range(0, len(cases), 400):
